@@ -22,8 +22,7 @@ package zklog
 
 //@ func (*Proof).Verify
 //@   nopanic[C05]
-//@   modifies nothing
-//@   allocates
+//@   modifies hstate(hash)
 //@   requires hash != nil && hash.h != nil && public.H != nil && public.X != nil && public.Y != nil && (p != nil ==> shaped(p))
 
 //@ func challenge
